@@ -248,13 +248,13 @@ def read (k : Kind) (tag : Option String) (b : Bytes) : Read :=
       if validDate v then .exact (.sysDate (some v)) else .invalid [.sysDate none]
   | .sysTime, [h, m, s] =>
     if [h, m, s].all nibblesOk && unbcd2 h < 24 && unbcd2 m < 60 && unbcd2 s < 60
-    then .exact (.sysTime ⟨unbcd2 h, unbcd2 m, unbcd2 s⟩) else .invalid [.sysTime ⟨0, 0, 0⟩]
+    then .exact (.sysTime ⟨unbcd2 h, unbcd2 m, unbcd2 s⟩) else .invalid []   -- (00:00:00 is a time of day, not "no value")
   | .hhmm, [h, m] =>
     if [h, m].all nibblesOk && hhmmInDomain ⟨unbcd2 h, unbcd2 m⟩
-    then .exact (.hhmm ⟨unbcd2 h, unbcd2 m⟩) else .invalid [.hhmm ⟨0, 0⟩]
+    then .exact (.hhmm ⟨unbcd2 h, unbcd2 m⟩) else .invalid []                 -- (00:00 likewise)
   | .hhmmPtr, [h, m] =>
     if [h, m].all nibblesOk && hhmmInDomain ⟨unbcd2 h, unbcd2 m⟩
-    then .exact (.hhmmPtr (some ⟨unbcd2 h, unbcd2 m⟩)) else .invalid [.hhmmPtr none, .hhmmPtr (some ⟨0, 0⟩)]
+    then .exact (.hhmmPtr (some ⟨unbcd2 h, unbcd2 m⟩)) else .invalid [.hhmmPtr none]
   | _, _ => .mustFail
 
 def readLeaf (bytes : Bytes) : Leaf → Read
